@@ -70,6 +70,14 @@ CLAIMED = {
          "Machine-checked proof of C15_order, C15_lossless_under_capacity, C15_never_exits_on_lag, C15_newest_processed, C15_last_command_handled (ring invariant against the publication history, by induction over schedules); tied to the code by running the real Runtime with recording NetworkService stubs (1-3 networks) and the real CommandSender: bursts 1..64 (thorough 1..200) while handlers are blocked, partial releases, emergency-style 6-command bursts, random schedules; observed per-network on_command order compared with the model.",
          "tokio::sync::broadcast is modelled (ring of capacity QUEUE_SIZE_COMMAND; Lagged moves the cursor to the oldest retained value) and exercised through the real runtime; the schedule fed to the model is the observed one (which receive happened when), values and order are what is checked.",
          "DESIGN.md section 4 C15"),
+ "C10": ("Lean 4 theorems over the NetworkAuthority model (per-unit status derivation, change detection, every-tenth-cycle refresh, accepted-message bookkeeping of the receive loop) against an independent reference rule (Spec.C10.truth / mustPublish) + differential histories on the real NetworkAuthority (recv / tick / command clones as in schedule_net_service) over the emulated CAN bus",
+         "Machine-checked proof of C10_cycle (each unit in each cycle publishes exactly what the reference rule demands and remembers it), C10_healthy_sound, C10_timeout_faulty, C10_recovers, C10_every_tenth, C10_unheard_silent, C10_publish_on_change, C10_accept_marks, C10_name_example; tied to the code by histories of {frame from the unit, frame from another unit, malformed frame, cycle, real silence longer / shorter than the timeout} for 1-4 units of all eight driver kinds, timeouts absent / 0 ms / 150-400 ms, compared event by event (frames, signals, statuses) and checked against the Spec rule on the implementation's own output.",
+         "Time is real in the implementation (Instant::now): the harness waits for real and keeps every wait at least 100 ms away from a deadline; the model clock is a lower bound of the elapsed time (timeout 0 ms is therefore always expired). The order of the receive and tick tasks is the order of the harness's awaits; true parallel interleavings of the two tokio tasks on shared atomics are not exhibited. Status names are compared as strings built by the real J1939Unit::name.",
+         "DESIGN.md section 4 C10"),
+ "C20": ("Lean 4 theorems over the NetworkAuthority configuration/identity model (NAME bit layout read back by an independent J1939-81 decoder, address claim, request responder as a complete case split, units = known configured entries in order with unwrap_or source address, unknown entries skipped) + differential runs of the real NetworkAuthority::new / clone / setup / recv on the emulated bus, including the shipped contrib/etc/glonax.conf parsed by the real glonax-server config types",
+         "Machine-checked proof of C20_name_layout, C20_claim_on_setup, C20_claim_addressing, C20_responder, C20_ignores_others, C20_ignores_other_groups, C20_answers, C20_software_ident, C20_units_exact, C20_source_address, C20_unknown_skipped, C20_units_order, C20_factory_known, C20_setup_addressing; tied to the code by random and boundary NAME field values (including out-of-range ones, which the builder masks), all own addresses, requests for the three answered groups and others with matching / foreign / global destinations and short payloads, driver lists over the 8 known and several unknown (vendor, product) pairs with and without sa override and timeout, construction + clone of each, and the first-cycle set-up frames observed on the bus.",
+         "The TimeDate answer's payload is the wall clock and is compared by identifier and length only. TOML parsing (serde/toml) is trusted and exercised only through the shipped file and the harness's generated files. One defect fixed (ECM vendor string), one recorded finding (encoder unit address outside 0x6A..0x6D aborts).",
+         "DESIGN.md section 4 C20"),
 }
 NOT_YET = "check not built yet in this round (planned: Lean model + correspondence, see DESIGN.md section 4)"
 
@@ -98,7 +106,7 @@ m = {
   "guard": "cargo feature `verif` of crate glonax (glonax-runtime)",
   "enable": "the harness depends on glonax with features=[\"verif\"]; real binaries: cargo build --features glonax/verif",
   "baseline_off_cmd": "cd /repo && cargo test --workspace --no-fail-fast --offline",
-  "source_commits": ["3918635"],
+  "source_commits": ["3918635", "6cbc8b2"],
   "add_only": True,
  },
  "engines": [{
